@@ -224,7 +224,7 @@ def run(tier, rep):
     quick = tier == "quick"
     sc = common.scratch("c07")
     model(rep, tier)
-    exe = common.build_cdriver("c07drv")
+    exe = common.build_cdriver("c07drv", extra=("-rdynamic", "-ldl"))
     events = []
     stats = {"images": 0}
     for (name, integ, K, steps, addAt) in (CONFIGS_QUICK if quick else CONFIGS_FULL):
